@@ -23,7 +23,8 @@ request                                                         reply
       → `n1 nx nzm keep(n1) xs(nx) zs(nzm) bflag(nx) kred(nx nx) mred(nx nx) psi(nzm nx) presid V'(n p)`
          (`V'` = the rows of `V` on the DOF with mass, expanded back by the model)
 `rbdisp nn tol rb(3 nn 6)`                                      `coords(3 nn) errs(nn) warn(nn)` | `raise-singular`
-`netdrm nbi n bi… rb(nbi 6) M(n n)`                             `drm(6 n)`
+`netdrm nb nbi n conv(0 | 1 lc mc) bset… sub… u(3 nb) ref(3) M(n n)`  `drm_sc(6 n) drm_lv(6 n)` (mk_net_drms: `rb.T @ M[bset[sub]]`
+         with `rb = rbgeom_uset(uset[sub], ref)`; s/c version converted as a DRM, l/v version from converted M, uset, ref)
 `rbmult nr nc nb bset… drm(nr nc) rb(nb 6)`                     `drmrb(nr 6)`
 `cbtf0 n nb bset… a(nb) M(n n)`                                 `frc(nb) rhs(nq)`
 anything else → `bad-op` -/
@@ -279,9 +280,11 @@ def doCbcheck : P String := do
   let frq := (List.range nq).toArray.map fun i => (K2 (qf i) (qf i)).abs.sqrt / twoPi
   -- mass properties at the cg
   let (mcgs0, ds) := cgmass ms
-  let mcgs := ofArr (tab 6 6 mcgs0) 6
+  let mcgs_a := tab 6 6 mcgs0
+  let mcgs := ofArr mcgs_a 6
   let (mcgg0, dg) := cgmass mg
-  let mcgg := ofArr (tab 6 6 mcgg0) 6
+  let mcgg_a := tab 6 6 mcgg0
+  let mcgg := ofArr mcgg_a 6
   let Is_a := tab 3 3 (fun i j => mcgs (i + 3) (j + 3))
   let Ig_a := tab 3 3 (fun i j => mcgg (i + 3) (j + 3))
   -- grounding
@@ -342,10 +345,38 @@ def doRbdisp : P String := do
   | some (cs, es, ws) => pure (" ".intercalate ([fmtA cs, fmtA es, fmtNats ws.toList].filter (· ≠ "")))
 
 def doNetdrm : P String := do
-  let nbi ← pNat; let n ← pNat
-  let bi ← pMany nbi pNat
-  let rb ← pMany (nbi * 6) pF; let Ma ← pMany (n * n) pF; pEnd
-  pure (fmtM 6 n (netDrm nbi (ofArr rb 6) (ofArr Ma n) (fun k => bi[k]!)))
+  let nb ← pNat; let nbi ← pNat; let n ← pNat
+  let cflag ← pNat
+  let (lc, mc) ← (if cflag == 1 then do let a ← pF; let b ← pF; pure (a, b) else pure (1.0, 1.0))
+  let bset ← pMany nb pNat; let sub ← pMany nbi pNat
+  let ua ← pMany (3 * nb) pF; let ref ← pV3
+  let Ma ← pMany (n * n) pF; pEnd
+  let bl := bset.toList
+  let M := ofArr Ma n
+  let u := ofArr ua 3
+  let ngi := nbi / 6
+  let bi : Nat → Nat := fun k => bset[sub[k]!]!
+  -- rows of the uset of the interface subset (`uset.iloc[bsubset]`)
+  let uif (u : NMat Float) : NMat Float := fun i j => u (sub[i]!) j
+  -- (arrays are bound by `let` before they are wrapped by `ofArr`: otherwise the table is rebuilt at every access)
+  let rbArr (u : NMat Float) (r : V3 Float) : Array Float :=
+    let uia := tab nbi 3 (uif u)
+    let ui := ofArr uia 3
+    let (isC, isS) := usetKinds ngi ui
+    tab nbi 6 (rbgeomUset ui isC isS r)
+  let rb_a := rbArr u ref
+  let rb := ofArr rb_a 6
+  let dsc0_a := tab 6 n (netDrm nbi rb M bi)
+  let dsc0 := ofArr dsc0_a n
+  let dsc := if cflag == 1 then tab 6 n (cbconvert dsc0 bl lc mc true) else dsc0_a
+  let M'_a := if cflag == 1 then tab n n (cbconvert M bl lc mc false) else Ma
+  let M' := ofArr M'_a n
+  let u'_a := if cflag == 1 then tab nb 3 (usetConvert u lc) else ua
+  let u' := ofArr u'_a 3
+  let rb'_a := rbArr u' ⟨ref.x * lc, ref.y * lc, ref.z * lc⟩
+  let rb' := ofArr rb'_a 6
+  let dlv := if cflag == 1 then tab 6 n (netDrm nbi rb' M' bi) else dsc0_a
+  pure (fmtA dsc ++ " " ++ fmtA dlv)
 
 def doRbmult : P String := do
   let nr ← pNat; let nc ← pNat; let nb ← pNat
